@@ -372,3 +372,33 @@ Proof.
   split; [reflexivity|]. split; [exact default_in_bounds|]. split; [reflexivity|].
   intros _. split; [exact default_in_bounds|exact I].
 Qed.
+
+(* the exact sample clause holds of every model trace *)
+Definition var_rel (v : option (Z * Z)) (s : rtt_state) : Prop :=
+  match s with
+  | Initial _ => v = None
+  | Subsequent _ srtt rttvar => v = Some (srtt, rttvar)
+  end.
+
+Lemma exact_obs_model : forall ops v s, var_rel v s -> c16_exact_obs v ops (rtte_trace s ops) = true.
+Proof.
+  induction ops as [|o ops IH]; intros v s Hv; [reflexivity|].
+  cbn [rtte_trace]. destruct (rtte_step s o) as [s'|] eqn:E; [|reflexivity].
+  cbn [c16_exact_obs]. destruct o as [r|]; cbn [rtte_step] in E.
+  - destruct s as [rto0|rto0 srtt rttvar]; cbn [var_rel] in Hv; subst v.
+    + apply rto_after_sample_initial in E. subst s'. cbn [roundtrip_time retransmission_timeout].
+      rewrite Z.eqb_refl. unfold CLOCK_GRANULARITY, MS. rewrite Z.eqb_refl. cbn [andb].
+      apply IH. reflexivity.
+    + apply rto_after_sample_subsequent in E. cbv zeta in E. subst s'.
+      cbn [roundtrip_time retransmission_timeout].
+      rewrite Z.eqb_refl. unfold CLOCK_GRANULARITY, MS. rewrite Z.eqb_refl. cbn [andb].
+      apply IH. reflexivity.
+  - pose proof (timeout_preserves_core _ _ E) as Hc.
+    destruct s as [rto0|rto0 srtt rttvar]; destruct s' as [rto1|rto1 srtt1 rttvar1];
+      cbn [core] in Hc; try discriminate; cbn [var_rel] in Hv; subst v.
+    + cbn [andb]. apply IH. reflexivity.
+    + injection Hc as -> ->. cbn [roundtrip_time]. rewrite Z.eqb_refl. cbn [andb]. apply IH. reflexivity.
+Qed.
+
+Lemma model_trace_exact_ok : forall ops, c16_exact_ok ops (rtte_trace rtte_default ops) = true.
+Proof. intro ops. apply exact_obs_model. reflexivity. Qed.
